@@ -27,6 +27,15 @@ def _frac(v):
     raise ValueError('not a value: %s' % v)
 
 
+from .values import PHASES
+
+
+def phased(m, k):
+    """complex entry of modulus m (positive A-scalar) with the k-th fixed rational unit phase: |entry|^2 == m^2 exactly"""
+    c, s_ = PHASES[k % len(PHASES)]
+    return C(m * c if c != 0 else 0, m * s_ if s_ != 0 else 0)
+
+
 def scalar_terms(v):
     """entry -> (re, im) z3 real terms (im None for reals)"""
     if isinstance(v, (C, complex)):
@@ -34,6 +43,13 @@ def scalar_terms(v):
     if isinstance(v, SymBool):
         raise TypeError('bool entry')
     return to_z3_real(v), None
+
+
+def _np_obj2(vals):
+    a = np.empty((len(vals),), dtype=object)
+    for i, v in enumerate(vals):
+        a[i] = v
+    return a
 
 
 def diff_clauses(a, b):
@@ -46,6 +62,11 @@ def diff_clauses(a, b):
             if x == y:
                 continue
             out.append(z3.BoolVal(True))
+            continue
+        if (isinstance(x, C) and (isinstance(x.re, apoly.P) or isinstance(x.im, apoly.P))) or (isinstance(y, C) and (isinstance(y.re, apoly.P) or isinstance(y.im, apoly.P))):
+            xa = _np_obj2([re_part(x), im_part(x)])
+            ya = _np_obj2([re_part(y), im_part(y)])
+            out.extend(diff_clauses(xa, ya))
             continue
         if isinstance(x, apoly.P) or isinstance(y, apoly.P):
             d = x - y
@@ -102,6 +123,14 @@ def syntactic_nonneg(t, depth=0):
 class BaseEnv:
     def sos_fact(self, t):
         pass
+
+    def cconst(self, re, im):
+        """complex constant with exact rational parts"""
+        if getattr(self, 'scalar_mode', 'Z') == 'A':
+            k = lambda f: apoly.P.const(Fraction(f)) if f != 0 else 0
+        else:
+            k = lambda f: Z(z3.RealVal(Fraction(f)))
+        return C(k(re), k(im))
 
     def sumsq(self, t):
         """sum of squares of the entries of a real tensor (A-scalars: registered as non-negative)"""
@@ -160,9 +189,7 @@ class SymEnv(BaseEnv):
         cplx = dtype.startswith('complex')
         for ix in np.ndindex(*tuple(shape)):
             if self.scalar_mode == 'A':
-                if cplx:
-                    unsupported('complex A-scalars')
-                a[ix] = apoly.new_real(name)
+                a[ix] = C(apoly.new_real(name + '.re'), apoly.new_real(name + '.im')) if cplx else apoly.new_real(name)
             else:
                 a[ix] = C(real(name + '.re'), real(name + '.im')) if cplx else real(name)
         return a
@@ -171,8 +198,9 @@ class SymEnv(BaseEnv):
         """dense array, strictly positive symbols at the pattern positions, structural zeros elsewhere (A-scalars)"""
         a = np.empty(tuple(shape), dtype=object)
         a[...] = 0
-        for ix in pattern:
-            a[tuple(ix)] = apoly.new_pos(name)
+        for k, ix in enumerate(pattern):
+            m = apoly.new_pos(name)
+            a[tuple(ix)] = phased(m, k) if dtype.startswith('complex') else m
         self.inputs[name] = {'kind': 'pos_tensor', 'dtype': dtype, 'shape': list(shape), 'syms': a.copy()}
         if source == 'numpy':
             return symnumpy.ndarray(a, DT[dtype])
@@ -478,7 +506,8 @@ class ExactEnv(BaseEnv):
         a = np.empty(tuple(shape), dtype=object)
         a[...] = 0
         for k, ix in enumerate(pattern):
-            a[tuple(ix)] = apoly.P.const(abs(seeded_fraction(self.seed, name, k)))
+            m = apoly.P.const(abs(seeded_fraction(self.seed, name, k)))
+            a[tuple(ix)] = phased(m, k) if dtype.startswith('complex') else m
         if source == 'numpy':
             return symnumpy.ndarray(a, DT[dtype])
         return st.Tensor(a, DT[dtype])
